@@ -30,8 +30,8 @@ def gen_case(run, i):
         ps, pr = ref.px, src.px
         sw, sh = rng.randint(10, 20), rng.randint(10, 20)
         rx0, rytop = ref.x0, ref.ytop
-        lo = 1 if family != 'dyadic' and pr > 1 else 0
-        sx0, sytop = rx0 + 3 * pr + rng.randrange(lo, pr), rytop - 2 * pr - rng.randrange(lo, pr)
+        noisy = rasters.noisy_edges(family, ps, pr) and pr > 1
+        sx0, sytop = rx0 + 3 * pr + (rasters.offgrid_offset(rng, family, ps, pr) if noisy else rng.randrange(0, pr)), rytop - 2 * pr - (rasters.offgrid_offset(rng, family, ps, pr) if noisy else rng.randrange(0, pr))
         rw = -(-(sx0 + sw * ps - rx0) // pr) + 3
         rh = -(-(rytop - (sytop - sh * ps)) // pr) + 2
         src = rasters.Grid(sx0, sytop, ps, ps, sw, sh, src.unit)
